@@ -34,7 +34,8 @@ impl HE for N64 {
 
 /// edge lists in abstract integer coordinates (even numbers; odd numbers lie strictly between)
 /// index 7: an axis with 12 edges (lookups that bisect first and scan a short window afterwards)
-const EDGE_LISTS: [&[i32]; 8] = [&[], &[0], &[0, 4], &[0, 4, 8], &[0, 2, 8], &[8, 0, 4, 4], &[0, 4, 4, 8], &[0, 10, 20, 30, 40, 50, 60, 70, 80, 90, 100, 110]];
+/// index 8: a repeated edge whose occurrences are not adjacent in the input
+const EDGE_LISTS: [&[i32]; 9] = [&[], &[0], &[0, 4], &[0, 4, 8], &[0, 2, 8], &[8, 0, 4, 4], &[0, 4, 4, 8], &[0, 10, 20, 30, 40, 50, 60, 70, 80, 90, 100, 110], &[4, 0, 8, 4]];
 
 #[derive(Clone, Debug)]
 struct St {
@@ -420,6 +421,11 @@ fn main() {
         cases.push(GCase { axes: vec![7, 2], ty, depth: ld, threads: 1 });
         cases.push(GCase { axes: vec![3, 7], ty, depth: ld - 1, threads: 1 });
     }
+    for ty in 0..2u8 {
+        cases.push(GCase { axes: vec![8], ty, depth, threads: 1 });
+        cases.push(GCase { axes: vec![8, 2], ty, depth: depth - 1, threads: 1 });
+        cases.push(GCase { axes: vec![3, 8], ty, depth: depth - 1, threads: 1 });
+    }
     for pos in 0..3usize {
         for z in [0usize, 1] {
             let mut ax = vec![2, 6, 4];
@@ -432,7 +438,7 @@ fn main() {
     rep.dispatch_chunk = 1;
     rep.run_sub(
         "histories",
-        &format!("grids: all 7 one-axis grids (depth {}), all 49 two-axis grids (depth {}), 27 three-axis grids over the non-degenerate edge lists (depth {}), grids with a 12-edge axis (alone, with a one-bin axis, after a two-bin axis; depth 3..4 (4..5)) and 6 three-axis grids with a zero-bin axis (depth {}), edge lists {{[], [0], [0,4], [0,4,8], [0,2,8], [8,0,4,4] (unsorted, duplicate), [0,4,4,8] (sorted, duplicate)}}, i32 and N64; actions: per axis one coordinate below the first edge, on every edge, strictly inside every bin, above the last edge - all combinations; breadth-first over ALL insertion sequences up to the depth; each search run twice and the counts compared", depth + 1, depth, if rep.cfg.thorough() { 7 } else { 5 }, depth),
+        &format!("grids: all 7 one-axis grids (depth {}), all 49 two-axis grids (depth {}), 27 three-axis grids over the non-degenerate edge lists (depth {}), grids with an edge list whose repeated value is not adjacent in the input ([4, 0, 8, 4]), grids with a 12-edge axis (alone, with a one-bin axis, after a two-bin axis; depth 3..4 (4..5)) and 6 three-axis grids with a zero-bin axis (depth {}), edge lists {{[], [0], [0,4], [0,4,8], [0,2,8], [8,0,4,4] (unsorted, duplicate), [0,4,4,8] (sorted, duplicate)}}, i32 and N64; actions: per axis one coordinate below the first edge, on every edge, strictly inside every bin, above the last edge - all combinations; breadth-first over ALL insertion sequences up to the depth; each search run twice and the counts compared", depth + 1, depth, if rep.cfg.thorough() { 7 } else { 5 }, depth),
         cases.into_iter(),
         |c, lx| {
             lx.nontrivial(c.axes.iter().all(|&a| EDGE_LISTS[a].len() >= 2 && a != 1));
